@@ -74,6 +74,8 @@ type Conn struct {
 	Writes, Reads int
 	ReqWritten    int
 	RespConsumed  int
+	Produced      int // response bytes produced by the server on this connection
+	ReadMark      int // bytes the reader had consumed when it last asked for more
 }
 
 type timeoutErr struct{}
@@ -150,6 +152,10 @@ func (c *Conn) Read(p []byte) (int, error) {
 	}
 	c.mu.Lock()
 	c.Reads++
+	if c.ReadBytes > c.ReadMark {
+		// the reader asks for more: everything it had read has been processed
+		c.ReadMark = c.ReadBytes
+	}
 	if f := c.fault("read"); f != nil {
 		c.mu.Unlock()
 		return 0, &net.OpError{Op: "read", Net: "sim", Err: errors.New("injected read error")}
@@ -378,6 +384,10 @@ func (c *Conn) execOne() {
 	c.mu.Lock()
 	c.outq = append(c.outq, resp...)
 	c.frames = append(c.frames, len(resp))
+	c.Produced += len(resp)
+	for _, x := range e.C.Execs[nlog:] {
+		x.RespEnd = c.Produced
+	}
 	c.mu.Unlock()
 }
 
